@@ -10,6 +10,7 @@ from ..engine.mutate import Mutant, Variant, in_function, replace_once
 from ..engine.runner import Rule
 from ..engine.source import AnalysisError
 from ..engine.sqlfront import all_where_clauses, identifiers, split_conjuncts
+from . import C13
 from . import shared
 from .common import callee_name, calls_in, kwarg
 
@@ -529,6 +530,7 @@ def rule_three_predicates(ctx):
 
 
 RULES = [
+    Rule("R-C03-10", "the re-hash before and after a command trusts a recorded digest only when the full stat signature is unchanged", C13.rule_stat_shortcut, min_instances=4),
     Rule("R-C03-1", "one shared definition of 'blocked input'", rule_shared_predicate, min_instances=4),
     Rule("R-C03-2", "the predicate means what the property says", rule_predicate_meaning, min_instances=3),
     Rule("R-C03-3", "hash before and after the command; fail and drain on change", rule_hash_before_after, min_instances=15),
